@@ -232,6 +232,17 @@ def main():
                 pr = check_inotify(recs)
                 if pr:
                     bat.fail("C20.inotify-decoder", pr[0], {"kind": "inotify", "records": [[r[0], r[1], r[2], r[3].decode("latin-1"), r[4]] for r in recs]}, "Inotify._parse_event_buffer")
+        # field ranges of struct inotify_event: __s32 wd (the kernel's queue-overflow record carries -1), __u32 mask (IN_ISDIR,
+        # IN_Q_OVERFLOW, bit 31), __u32 cookie (any 32-bit value)
+        extremes = [(-1, 0x4000, 0), (1, 0x40000100, 0xFFFFFFFF), (2147483647, 0x80000000, 0x80000001), (3, 0x100, 7)]
+        for count in (1, 2, 3):
+            for combo in itertools.product(extremes, repeat=count):
+                for nm, pad in ((b"", 0), (b"n", 3)):
+                    recs = [(wd, mask, ck, nm, pad) for wd, mask, ck in combo]
+                    bat.case(("inotify-fields", combo, nm))
+                    pr = check_inotify(recs)
+                    if pr:
+                        bat.fail("C20.inotify-decoder", pr[0], {"kind": "inotify", "records": [[r[0], r[1], r[2], r[3].decode("latin-1"), r[4]] for r in recs]}, "Inotify._parse_event_buffer")
         names = ["", "a", "ab", "dir\\f", "éx", "abcde"]
         bat.case("win-empty-buffer")
         pr = check_win([], 256)      # zero bytes completed; the (poisoned) rest of the buffer is there so that a decoder that reads it anyway yields garbage records instead of crashing the battery
